@@ -163,6 +163,47 @@ elif mode == 'fds':
                         'stdio_open': all(not s.closed for s in (sys.stdin, sys.stdout, sys.stderr))})
     finally:
         shutil.rmtree(d, ignore_errors=True)
+elif mode == 'fds-pipe':
+    # the result goes to standard output, which is a real OS pipe whose reader is already gone: small results break only at
+    # the FINAL flush, large ones inside the main loop. query_csv must return, and must not leave a descriptor it opened behind.
+    import tempfile, shutil
+    d = tempfile.mkdtemp(prefix='rbqlverif_pipe_')
+    real_stdout = sys.stdout
+    try:
+        for name, query, nrows in arg:
+            inp = os.path.join(d, 'in.csv')
+            with open(inp, 'wb') as f:
+                for i in range(nrows): f.write(('%d,name%d,%d\n' % (i, i, i % 3)).encode())
+            r_end, w_end = os.pipe()
+            os.close(r_end)
+            fake = io.TextIOWrapper(os.fdopen(w_end, 'wb'), encoding='utf-8')
+            def fds():
+                m = {}
+                for n in os.listdir('/proc/self/fd'):
+                    try: m[int(n)] = os.readlink('/proc/self/fd/' + n)
+                    except OSError: pass
+                return m
+            before = fds()
+            sys.stdout = fake
+            outcome = 'ok'
+            try:
+                try:
+                    rbql_csv.query_csv(query, inp, ',', 'quoted', None, ',', 'quoted', 'utf-8', [], False)
+                except BaseException as e:
+                    outcome = type(e).__name__ + ': ' + str(e)[:80]
+            finally:
+                sys.stdout = real_stdout
+            after = fds()
+            leaked = sorted((k, v) for k, v in after.items() if k not in before)
+            for k, _v in leaked:
+                try: os.close(k)
+                except OSError: pass
+            try: fake.close()
+            except Exception: pass
+            out.append({'name': name, 'outcome': outcome, 'leaked': leaked})
+    finally:
+        sys.stdout = real_stdout
+        shutil.rmtree(d, ignore_errors=True)
 print(json.dumps(out, default=repr))
 '''
 
@@ -343,6 +384,26 @@ def fd_check(res):
     res.sample({'fd_scenarios': [[s[0], o.get('outcome')] for s, o in zip(FD_SCENARIOS, outs)]})
 
 
+PIPE_SCENARIOS = [(n + '/%d' % rows, q, rows) for rows in (0, 1, 20, 30000) for n, q in (
+    ('plain', 'select a1, a2'), ('sorted', 'select a1, a2 order by int(a1) desc'), ('agg', 'select a3, count(*) group by a3'),
+    ('distinct', 'select distinct a3'), ('update', 'update set a2 = "x"'), ('top', 'select top 3 a1'))]
+
+
+def stdout_pipe_check(res):
+    outs = run_impl('fds-pipe', PIPE_SCENARIOS)
+    res.evaluations += len(PIPE_SCENARIOS)
+    nbad = 0
+    for sc, o in zip(PIPE_SCENARIOS, outs):
+        res.nontrivial.add(('stdout-pipe', sc[0]))
+        if 'harness_failure' in o or o.get('outcome') != 'ok' or o.get('leaked'):
+            nbad += 1
+            if nbad <= 3:
+                res.violations.append({'property': 'C15', 'impl': 'py', 'why': 'standard output is a pipe whose reader is gone: query_csv must return and leave no descriptor it opened behind',
+                                       'scenario': sc, 'observed': o, 'case_key': 'C15|stdout-pipe|' + sc[0]})
+    res.count('stdout_pipe_scenarios', len(PIPE_SCENARIOS))
+    res.count('stdout_pipe_failures', nbad)
+
+
 def header_protocol_check(res):
     """set_header at most once and before any write (real writer-call trace through the driver)"""
     code_cases = [{'q': q, 'A': TABLE, 'B': BTABLE if q.get('join') else None, 'header_a': ['c1', 'c2'], 'header_b': ['d1', 'd2'] if q.get('join') else None} for q in SHAPES]
@@ -375,6 +436,7 @@ def run(res, tier, seed):
     bad_bytes_check(res, tier)
     bad_bytes_check_js(res, tier)
     fd_check(res)
+    stdout_pipe_check(res)
 
 
 def replay(res, path):
